@@ -9,6 +9,8 @@ Leaves0 ==
   \cup { <<"detector", "environment", "temperature">> }
   \cup { <<"detector", "geometry", f>> : f \in {"row", "col", "total_thickness", "pixel_vert_size", "pixel_horz_size"} }
   \cup { <<"pipeline", "photon_collection", "m1", "arguments", "a">>, <<"pipeline", "photon_collection", "m1", "arguments", "b">>,
+         <<"pipeline", "photon_collection", "m1", "arguments", "opt", "level">>,
+         <<"pipeline", "photon_collection", "m1", "arguments", "opt", "keep">>,
          <<"pipeline", "photon_collection", "m1", "enabled">>,
          <<"pipeline", "charge_generation", "m2", "arguments", "c">>, <<"pipeline", "charge_generation", "m2", "enabled">> }
 Cfg0 == [leaves |-> Leaves0, disabled |-> { <<"pipeline", "charge_generation", "m2">> }]
